@@ -18,6 +18,12 @@ TBASE = 1577836800
 LAYOUTS = ["contexts", "streams", "bare_streams", "bare_modules"]
 CARRIERS = ["dict", "odict", "yaml_str", "json_str", "yaml_io", "json_io", "yaml_path_str", "yaml_path",
             "json_path_str", "json_path", "xr_global", "xr_vars", "nc_path"]
+# already-parsed objects (Config's docstring: "list of Call objects"; extract_calls: objects with a 'calls' attribute)
+OBJECT_CARRIERS = ["call_list", "ctx_objs", "mixed_list", "config_obj"]
+CARRIERS += OBJECT_CARRIERS
+KNOWN = {("qartod", t) for t in ("gross_range_test", "spike_test", "location_test", "climatology_test", "rate_of_change_test",
+                                 "flat_line_test", "attenuated_signal_test", "density_inversion_test", "aggregate")} | \
+        {("argo", "pressure_increasing_test"), ("argo", "speed_test"), ("axds", "valid_range_test")}
 
 PARAMS = {
     "gross_full": {"suspect_span": [1, 11], "fail_span": [0, 12]},
@@ -42,6 +48,9 @@ def expressible(cfg, layout, carrier):
           "bare_modules": len(cfg) == 1 and bare and len(c0["streams"]) == 1}[layout]
     if carrier == "xr_vars" and layout != "bare_streams":
         ok = False
+    if carrier in OBJECT_CARRIERS:
+        known = any((e["module"], e["test"]) in KNOWN for c in cfg for s in c["streams"] for e in s["entries"])
+        ok = ok and layout == "contexts" and known and (carrier != "mixed_list" or len(cfg) >= 2)
     return ok and len(cfg) >= 1
 
 
@@ -104,6 +113,14 @@ def plain(o):
     return o
 
 
+def deep_odict(o):
+    if isinstance(o, dict):
+        return OrderedDict((k, deep_odict(v)) for k, v in o.items())
+    if isinstance(o, list):
+        return [deep_odict(v) for v in o]
+    return o
+
+
 def to_yaml(d):
     from ruamel.yaml import YAML
     y = YAML(typ="safe")
@@ -124,7 +141,23 @@ def make_source(cfg, layout, carrier, wd, n):
     if carrier == "dict":
         return plain(d)
     if carrier == "odict":
-        return d if isinstance(d, OrderedDict) else OrderedDict(d)
+        return deep_odict(d)              # OrderedDicts all the way down (they are handed on as they are, not copied)
+    if carrier in OBJECT_CARRIERS:
+        from ioos_qc.config import Config, ContextConfig
+        ctxs = [ContextConfig(deep_odict(c) if n % 2 else plain(c)) for c in d["contexts"]]
+        if carrier == "config_obj":
+            return Config(plain(d))
+        if carrier == "ctx_objs":
+            return ctxs if n % 2 else tuple(ctxs)
+        if carrier == "call_list":
+            return [c for cc in ctxs for c in cc.calls]
+        first = [cc for cc in ctxs if cc.calls][0]          # its calls go in bare, the other contexts as objects
+        lst = list(first.calls) + [cc for cc in ctxs if cc is not first]
+        if n % 3 == 1:
+            lst.reverse()
+        elif n % 3 == 2:
+            lst = lst[1:] + lst[:1]
+        return lst
     if carrier == "yaml_str":
         return to_yaml(d)
     if carrier == "json_str":
@@ -210,7 +243,7 @@ def load_event(cfg, layout, carrier, wd, n):
     logging.disable(logging.CRITICAL)
     from ioos_qc.config import Config
     e = {"ev": "load", "cfg": cfg, "layout": layout, "carrier": carrier, "exc": "", "calls": [], "ncalls": 0,
-         "rt": {"exc": "", "calls": []}}
+         "rt": {"exc": "", "calls": []}, "again": {"done": False, "exc": "", "calls": [], "ncalls": 0}}
     try:
         src = make_source(cfg, layout, carrier, wd, n)
     except Exception as ex:  # noqa: BLE001
@@ -222,6 +255,14 @@ def load_event(cfg, layout, carrier, wd, n):
     except Exception as ex:  # noqa: BLE001
         e["exc"] = type(ex).__name__
         return e
+    if not carrier.endswith("_io"):          # a StringIO is exhausted by the first load
+        e["again"]["done"] = True
+        try:
+            ca = Config(src)
+            e["again"]["calls"] = project_calls(ca.calls)
+            e["again"]["ncalls"] = len(ca.calls)
+        except Exception as ex:  # noqa: BLE001
+            e["again"]["exc"] = type(ex).__name__
     try:
         if c.calls:
             c2 = Config(rebuild(c))
